@@ -1,8 +1,10 @@
 (* C13 — Morphology metrics equal their definition on every tree.
 
    Model:  Model/Morph.v mirrors the Cell helper methods on the segment list in document order.
-   Domain: wf c = the segments form a rooted tree (built from a parentless root by adding segments with a fresh id
-           under an existing parent), in ANY document order, with ANY ids and ANY fraction_along;
+   Domain: wf c = the segments form a rooted tree: distinct ids, exactly one parentless segment, every segment reaches
+           it through its parent chain — ANY document order, ids and fraction_along.  C13_every_built_tree: every list
+           built from a parentless root by adding segments with a fresh id under an existing parent, in any document
+           order, is wf.  C13_domain_decidable: wf is decided by wfb, which the kernel evaluates on every generated case;
            root_has_prox c = the parentless segment carries its own proximal point.
    Definition side (Model/Morph.v, bottom): ActProx (effective proximal point), DistRoot (distance from the root),
            children (in document order), gpath (paths of the graph with their weights).
@@ -10,7 +12,7 @@
            seg_length values (C13_segment_length says what those are).
    No theorem bounds the size, depth or branching of the tree. *)
 From Coq Require Import List ZArith QArith Sorted Permutation.
-From LNML Require Import Model.Morph Proofs.MorphP Proofs.MorphP1 Proofs.MorphP2 Proofs.MorphP3 Proofs.MorphP4 Proofs.MorphP5.
+From LNML Require Import Model.Morph Proofs.MorphP Proofs.MorphP1 Proofs.MorphP2 Proofs.MorphP3 Proofs.MorphP4 Proofs.MorphP5 Proofs.MorphP6.
 Import ListNotations.
 Open Scope Z_scope.
 
@@ -144,3 +146,16 @@ Print Assumptions C13_methods_agree.
 Theorem C13_domain_inhabited : wf ex_cell /\ root_has_prox ex_cell.
 Proof. exact domain_inhabited. Qed.
 Print Assumptions C13_domain_inhabited.
+
+(* the domain contains every tree, and membership is decidable (evaluated on every generated case: component 12) *)
+Theorem C13_every_built_tree : forall c, built c -> wf c.
+Proof. exact built_wf. Qed.
+Print Assumptions C13_every_built_tree.
+
+Theorem C13_domain_decidable : forall c, wfb c = true -> wf c.
+Proof. exact wfb_sound. Qed.
+Print Assumptions C13_domain_decidable.
+
+Theorem C13_root_has_prox_decidable : forall c, root_has_proxb c = true -> root_has_prox c.
+Proof. exact root_has_proxb_sound. Qed.
+Print Assumptions C13_root_has_prox_decidable.
